@@ -43,7 +43,7 @@ def run(ctx):
         if real_table[b] != F.spec_revcomp(bytes([b]))[0]:
             out.oracle_fail("table-256", {"byte": b}, "complement differs from the case-preserving IUPAC table")
     out.exhaustive = True
-    n = 6 if ctx.thorough else 1
+    n = 12 if ctx.thorough else 1
     strs = [bytes(rng.randrange(256) for _ in range(rng.randint(0, 60))) for _ in range(300 * n)] + [F.rand_residues(rng, rng.randint(0, 80)) for _ in range(300 * n)]
     # long inputs (beyond any block / buffer size an implementation might use): involution + spec, real code only
     for ln in [65536, 65537, 262144, 262145, 300001, 2**20 + 3][: (6 if ctx.thorough else 4)]:
